@@ -516,3 +516,28 @@ def scatter_spec(ty, cfg, n, args, ev):
     if len(seen) != n:
         return False, label, 'P', 'lanes %s are never written' % sorted(set(range(n)) - seen)
     return True, label, 'P', ''
+
+
+# ---------------------------------------------------------------- C19 compile-time constants (IR part)
+def const_batch_spec(ty, cfg, n, args, ev, V):
+    W = ty.bits
+    want = [T.const(W, v & ((1 << W) - 1)) for v in V]
+    return _lanes_check(ty, cfg, n, ev, want, 'lane i of as_batch() is the literal v_i')
+
+
+def const_bool_spec(ty, cfg, n, args, ev, Bv):
+    ret = ev.ret
+    W = ty.bits
+    if ret is None or isinstance(ret, (lanes.Ptr, dict)):
+        return False, 'lane i of as_batch_bool() is b_i', 'P', 'no register result'
+    for i in range(n):
+        got = T.slice_(ret, i, 1) if cfg.mask_regs else T.slice_(ret, i * W, W)
+        want = T.const(1, Bv[i]) if cfg.mask_regs else T.const(W, ((1 << W) - 1) if Bv[i] else 0)
+        if got != want:
+            return False, 'lane i of as_batch_bool() is b_i', 'P', 'mask lane %d is %s, the constant says %s' % (i, T.fmt(got, 3)[:160], bool(Bv[i]))
+    return True, 'lane i of as_batch_bool() is b_i', 'P', ''
+
+
+def select_const_spec(ty, cfg, n, args, ev, Bv):
+    a, b = args[0], args[1]
+    return _lanes_check(ty, cfg, n, ev, [a[i] if Bv[i] else b[i] for i in range(n)], 'select(constant mask, x, y)[i] = b_i ? x[i] : y[i]  (what the run-time select returns for the converted mask)')
